@@ -10,6 +10,28 @@ use std::panic::{catch_unwind, AssertUnwindSafe};
 pub fn run_main(f: fn(&[u64]) -> Vec<u64>) {
     // scripts provoke panics on purpose; keep stderr quiet
     std::panic::set_hook(Box::new(|_| {}));
+    // watchdog: a script that does not finish (e.g. a loop that no longer terminates) kills the
+    // process instead of stalling the check; the orchestrator attributes the crash to that script
+    let limit: u64 = std::env::var("IMPLRUN_WATCHDOG_SECS").ok().and_then(|v| v.parse().ok()).unwrap_or(40);
+    let progress = std::sync::Arc::new(std::sync::atomic::AtomicU64::new(0));
+    {
+        let progress = progress.clone();
+        std::thread::spawn(move || {
+            let mut last = 0u64;
+            let mut since = std::time::Instant::now();
+            loop {
+                std::thread::sleep(std::time::Duration::from_millis(500));
+                let cur = progress.load(std::sync::atomic::Ordering::SeqCst);
+                if cur != last {
+                    last = cur;
+                    since = std::time::Instant::now();
+                } else if cur % 2 == 1 && since.elapsed().as_secs() >= limit {
+                    // odd = a script is in flight
+                    std::process::abort();
+                }
+            }
+        });
+    }
     let stdin = std::io::stdin();
     let stdout = std::io::stdout();
     let mut out = std::io::BufWriter::new(stdout.lock());
@@ -19,7 +41,9 @@ pub fn run_main(f: fn(&[u64]) -> Vec<u64>) {
             .split_whitespace()
             .map(|t| t.parse::<u64>().expect("integer"))
             .collect();
+        progress.fetch_add(1, std::sync::atomic::Ordering::SeqCst);
         let res = catch_unwind(AssertUnwindSafe(|| f(&nums)));
+        progress.fetch_add(1, std::sync::atomic::Ordering::SeqCst);
         let res = res.unwrap_or_else(|_| vec![666]);
         let strs: Vec<String> = res.iter().map(|x| x.to_string()).collect();
         writeln!(out, "{}", strs.join(" ")).unwrap();
